@@ -24,8 +24,9 @@ CODE = {1: "statement does not lex (unterminated literal/comment or stray byte)"
         2: "token skeleton differs from the skeleton for a harmless string in the same position",
         4: "a string literal does not decode to the intended bytes",
         5: "the LIKE pattern written for a line filter does not mean 'the line contains the value'",
-        7: "model-predicted literal text (quote / doLike model) is not in the statement",
-        8: "baseline statement does not lex"}
+        7: "the statement is not the baseline shape instantiated with the model's text for the value (model/Quote.v, model/Like.v)",
+        8: "baseline statement does not lex",
+        10: "the baseline statement is not a shape covered by theorem template_skeleton_invariant"}
 MODE = {"raw": "MRaw", "plain": "MPlain", "like": "MLike"}
 
 
@@ -70,8 +71,8 @@ def eval_cases(ck, name, bases, cases):
         p, s = cut.get(i, (0, 0))
         p, s = max(0, p - MARGIN), max(0, s - MARGIN)
         cut[i] = (p, s)
-        rows.append("(%s, %s, %d, %d)" % (pack(b["marker"]), pack(b["sql"]), p, s))
-    rows.append("([0], [0], 0, 0)")  # baseline of the stand-alone escaper cases
+        rows.append("(%s, %s, %d, %d, %s)" % (pack(b["marker"]), pack(b["sql"]), p, s, "true" if b.get("mode") == "like" else "false"))
+    rows.append("([0], [0], 0, 0, false)")  # baseline of the stand-alone escaper cases
     raw_base = len(bases)
     crow = []
     for c in cases:
@@ -170,11 +171,11 @@ def run_correspondence(ck, known):
                 distinct.add(c["site"] + "|" + c["val"])
     ck.obligation("every site has a baseline statement", nbad_base == 0, "%d cases without baseline" % nbad_base)
 
-    mism = sorted(i for i, v in verd_all.items() if v in (7, 8))
+    mism = sorted(i for i, v in verd_all.items() if v in (7, 8, 10))
     viol = sorted(i for i, v in verd_all.items() if v in (1, 2, 4, 5))
     ck.obligation("spec oracle: token skeleton and literal meaning preserved on %d statements" % total, not viol,
                   "violating case ids: %s" % viol[:10])
-    ck.obligation("correspondence: model literal text (quote / doLike) present in the implementation's SQL", not mism,
+    ck.obligation("correspondence: every statement = its baseline shape instantiated with the model's quote/doLike text; every shape passes tpl_ok", not mism,
                   "mismatching case ids: %s" % mism[:10])
     if viol:
         # structural breaks first, then shortest value
@@ -244,7 +245,45 @@ def run_sites(ck):
                      no_input=True)
 
 
+def run_replay(ck):
+    """bin/check C10 --replay <file>: re-run the (site, value) of a replay file against the current tree"""
+    o = json.load(open(ck.replay))
+    c = o.get("case")
+    if not c:
+        ck.log("replay without a concrete input (%s): re-running the site census" % o.get("kind"))
+        run_sites(ck)
+        return
+    if not ck.go_build("sqlinject"):
+        ck.obligation("harness sqlinject builds against the repository", False, ck.build_out[-1500:])
+        return
+    inp = os.path.join(ck.work, "replay_in.jsonl")
+    open(inp, "w").write(json.dumps({"site": c["site"], "val": c["val"]}) + "\n")
+    outp = os.path.join(ck.work, "replay_out.jsonl")
+    rc, out = ck.go_run("sqlinject", ["--cases", inp, "--out", outp])
+    bases, cases, rej = load(outp)
+    if rc != 0 or (not cases and not rej):
+        ck.obligation("replay ran", False, out[-1500:])
+        return
+    if rej:
+        ck.log("the request is rejected before any statement: %s" % rej[0].get("rej"))
+    verd = {}
+    if cases:
+        verd, out = eval_cases(ck, "C10_replay", bases, cases)
+        if verd is None:
+            ck.obligation("replay evaluated inside Coq", False, out[-1500:])
+            return
+    ck.coverage["evaluations"] += len(cases)
+    ck.obligation("replayed input %r at %s keeps the statement structure" % (bytes.fromhex(c["val"]), c["site"]), not verd,
+                  "; ".join(CODE.get(v, str(v)) for v in verd.values()))
+    for cs in cases:
+        if cs["id"] in verd:
+            ck.violation({"property": "C10", "kind": CODE.get(verd[cs["id"]]), "case": describe(cs)})
+            break
+
+
 def run(ck):
+    if ck.replay:
+        return run_replay(ck)
     ck.trusted += [
         "C10: model/ChLex.v is a transcription of the ClickHouse lexer (Lexer.cpp) and literal decoder (ReadHelpers.cpp) from the ClickHouse sources/documentation; heredocs and Unicode quotes outside literals are not modelled",
         "C10: LIKE pattern meaning (model/Like.v like_parse) follows ClickHouse likePatternToRegexp",
